@@ -351,3 +351,7 @@ func Yield()           {}
 // Used to summarise a concrete type's method (recorded as a cut in evidence).
 // Natively it does nothing, so harnesses that use it are engine-only.
 func Override(name string, f any) {}
+
+// Setenv sets an environment variable as seen by os.Getenv under the engine
+// (default: every variable is unset).
+func Setenv(k, v string) { os.Setenv(k, v) }
